@@ -20,6 +20,7 @@ import (
 	"github.com/scigolib/hdf5/internal/zzverif/dump"
 	"github.com/scigolib/hdf5/internal/zzverif/ev"
 	"github.com/scigolib/hdf5/internal/zzverif/hx"
+	"github.com/scigolib/hdf5/internal/zzverif/pools"
 )
 
 // C18 — independent handles and background rebalancing are race-free and stop cleanly.
@@ -198,6 +199,26 @@ func c18W2(c *ev.Ctx) {
 		wantTorn[j] = dumpText(tp)
 	}
 	tornDiff := make([]string, n)
+	// while the readers run, one more goroutine keeps taking the buffers that wait in the
+	// library's pool, overwrites them and puts them back: a buffer that is in the pool belongs
+	// to nobody, so whoever still reads one it has released meets this writer (race report) or
+	// its pattern (wrong result)
+	churnDone := make(chan struct{})
+	var churnWG sync.WaitGroup
+	churnWG.Add(1)
+	go func() {
+		defer churnWG.Done()
+		for {
+			select {
+			case <-churnDone:
+				return
+			default:
+				pools.Dirty(false)
+				runtime.Gosched()
+			}
+		}
+	}()
+	defer func() { close(churnDone); churnWG.Wait() }()
 	var wg sync.WaitGroup
 	start := make(chan struct{})
 	for i := 0; i < n; i++ {
